@@ -1,6 +1,9 @@
 package props
 
 import (
+	"fmt"
+
+	"github.com/cockroachdb/apd/v3"
 	"math/big"
 	"strings"
 
@@ -213,6 +216,58 @@ func runC07(r *mon.Run) {
 		transCase(t, "fit", "log10", dec.Ctx{P: 20, Emin: -1, Emax: 21, Mode: "half_down"}, x2, dec.D{})
 	})
 	r.Parallel("coincidence-lengths", int64(len(coincidenceExps))*r.N(2, 20), func(t *mon.T) { coincidenceArithCase(t, "fit") })
+	// operands from a wider context: zeros (and tiny or huge values) whose
+	// exponent lies outside this context's range. A zero result keeps no digits
+	// but still has an exponent, which must end up inside the range.
+	r.Parallel("out-of-range-operands", r.N(40000, 3000000), func(t *mon.T) {
+		rr := t.Rng
+		c := gen.Context(rr)
+		if c.Emax > 7000 {
+			c.Emin, c.Emax = -383, 384
+		}
+		far := func() int64 {
+			if rr.Bool() {
+				return c.Emax + rr.Range(1, 900)
+			}
+			return c.Etiny() - rr.Range(1, 900)
+		}
+		x := dec.Zero(rr.Bool(), far())
+		if rr.Chance(1, 4) {
+			x = dec.D{Form: dec.Finite, Neg: rr.Bool(), C: big.NewInt(rr.Range(1, 999)), E: far()}
+		}
+		ops := []string{"abs", "neg", "round", "reduce", "sqrt", "cbrt", "add", "sub", "mul", "quo", "rem", "rtie", "rtiv"}
+		op := ops[rr.Intn(len(ops))]
+		var y dec.D
+		if isBinaryOp(op) {
+			y = gen.Finite(rr, c)
+			if rr.Chance(1, 3) {
+				y = dec.Zero(rr.Bool(), far())
+			}
+			if (op == "quo" || op == "rem") && y.IsZero() {
+				y = dec.FromInt(rr.Range(1, 99), 0)
+			}
+			if rr.Bool() && op != "quo" && op != "rem" {
+				x, y = y, x
+			}
+		}
+		if op == "sqrt" {
+			x.Neg = x.Neg && x.IsZero()
+		}
+		o := CallArith(op, br.Context(c, 0), x, y)
+		t.Eval()
+		t.Count("out-of-range-operands/" + op)
+		if o.Err != nil || o.Flags&apd.InvalidOperation != 0 {
+			t.Skip("error-or-invalid")
+			return
+		}
+		if o.Res.Form == dec.Finite && (op == "rtie" || op == "rtiv") {
+			return // RoundToIntegral* has no exponent-range clause (C09)
+		}
+		if why := CheckFit(c, o); why != "" {
+			t.Fail("fit-mismatch", detail(op, c, x, y, o, why))
+		}
+		t.Nontrivial(fmt.Sprintf("oor|%s|%s|%s|%s", op, c, x.FullString(), y.FullString()))
+	})
 	r.Parallel("fit", r.N(400000, 40000000), func(t *mon.T) {
 		if t.Rng.Chance(1, 5) {
 			// carry family: quotients/sums/roundings just below a power of ten
